@@ -25,6 +25,11 @@ func findBurnState(states *[]types.State) int {
 
 func findAccountState(states *[]types.State, account *types.Account) int {
 	for pos, state := range *states {
+		if state.Account.Type != account.Type {
+			// accounts of different types may share an identifier (e.g. an internal account named
+			// like a module account); they are different accounts with separate states
+			continue
+		}
 		if state.Account.Id == account.Id && state.Account.Id != "" && &state.Account.Id != nil {
 			return pos
 		} else if state.Account.Id == account.Id && state.Account.Id == "" {
